@@ -58,7 +58,7 @@ def run(tier):
     rng = random.Random(vlib.seed())
     bins = rk.build_readers([("def", rc.OPTS_DEFAULT, [], False)])
     esc_bin = vlib.build("escape_record", "escape_record.cpp")
-    lines = unicode_lines(quick, rng)
+    lines = unicode_lines(quick, rng) + rg.gen_escape_offsets(rc.OPTS_DEFAULT)
     if not quick:
         # 1M pairs: replay in slices to bound the size of the case files
         step = 200000
